@@ -680,6 +680,9 @@ func mangle(c context, templateName string) string {
 	if c.linkRel != "" {
 		s += "_rel(" + strings.TrimSpace(c.linkRel) + ")"
 	}
+	if c.scriptType != "" {
+		s += "_type(" + c.scriptType + ")"
+	}
 	if len(c.element.names) > 0 {
 		s += "_elements(" + strings.Join(c.element.names, ",") + ")"
 	}
@@ -780,6 +783,17 @@ func rebase(out, c0, c context) context {
 		out.attr.ambiguousValue = out.attr.ambiguousValue || c.attr.ambiguousValue
 		out.attr.afterAction = out.attr.afterAction || c.attr.afterAction
 		out.attr.inherited = c.attr.inherited
+	}
+	if c0.state == stateAttr && !out.attr.inherited && c.attr.value != c0.attr.value {
+		// The template has ended the attribute it was called in. If that was the rel
+		// attribute of a link or the type attribute of a script, the value it read was
+		// built on the static text of the first call site, which is not the one here.
+		if c0.element.name == "link" && c0.attr.name == "rel" && out.linkRel != c0.linkRel {
+			out.linkRel += "\x00 "
+		}
+		if c0.element.name == "script" && c0.attr.name == "type" && out.scriptType != c0.scriptType {
+			out.scriptType = ""
+		}
 	}
 	if out.element.inherited {
 		// The template has not left the element it was called in: the element, its link
